@@ -195,9 +195,11 @@ class Body:
         self.settle()
 
     def posedge(self, clk):
+        """one simultaneous rising edge of the clock net(s) `clk` (a name or a collection of aliases of one clock)"""
+        clks = {clk} if isinstance(clk, str) else set(clk)
         nb = []
         for it in self.always:
-            if isinstance(it[1], list) and any(e == 'posedge' and x == ('id', clk) for e, x in it[1]):
+            if isinstance(it[1], list) and any(e == 'posedge' and x[0] == 'id' and x[1] in clks for e, x in it[1]):
                 self.exec(it[2], nb)
         self.commit(nb)
         self.settle()
